@@ -168,7 +168,9 @@ let parse_observed f : vline list list =
   List.rev !rounds
 
 (* ---------- BFS to the quiescent states ---------- *)
-let key (x : xstate) = (strip x, view_of x)
+let cur_feats = ref { f_dd = false; f_metrics = false; f_testutils = false; f_tracing = false }
+(* the key is order-insensitive where the view is: rendered lines (dead letters sorted) *)
+let key (x : xstate) = (strip x, render !cur_feats (view_of x))
 let hkey k = Hashtbl.hash_param 256 1024 k
 
 let states_seen = ref 0 and transitions = ref 0
@@ -201,6 +203,7 @@ let () =
               "--dump", Arg.Set dump, "print the model's candidate views for every round" ]
     (fun _ -> ()) "driver";
   let sc = parse_script !script in
+  cur_feats := sc.feats;
   let prefixes = try List.assoc !proj proj_table with Not_found -> failwith "unknown projection" in
   let obs = if !observed = "" then None else Some (parse_observed !observed) in
   let cands = ref [xinit sc.feats] in
